@@ -111,7 +111,7 @@ class Opaque:        # a value we carry but never compute with (dtype, device, p
 
 
 IDENTITY_FUNCS = {"asarray", "to_numpy", "copy_array", "safe_to_device"}
-HELPERS = {"update_at_indices", "get_device", "array_namespace"}
+HELPERS = {"update_at_indices", "get_device", "array_namespace", "is_torch_namespace"}
 UNARY = {"exp": "exp", "log": "ln", "log1p": "log1p", "sqrt": "sqrt", "abs": "abs"}
 
 
@@ -129,16 +129,21 @@ class Exec:
         self.flags = {}
         self.guards = []
         self.assumed = []
+        self.names = {}
         if self_obj is not None:
             self.env["self"] = self_obj
 
     # -- let binding
     def bind(self, name, val):
+        """Every assignment becomes a let with a UNIQUE name (SSA), so a rebinding can never capture a
+        later use of the old value (e.g. `y, lj = f(y)`)."""
         if isinstance(val, N):
             base = name.replace(".", "_")
-            self.lets.append((base, val))
-            v = var(base, val.shape)
-            return v
+            k = self.names.get(base, 0)
+            self.names[base] = k + 1
+            nm = base if k == 0 else f"{base}_{k}"
+            self.lets.append((nm, val))
+            return var(nm, val.shape)
         return val
 
     # -- statements
@@ -235,6 +240,7 @@ class Exec:
         def branch(stmts):
             sub = Exec(self.tr, self.module, self.cls, self.fname, self.env, self.overrides)
             sub.lets = []
+            sub.names = self.names
             for s in stmts:
                 if not (isinstance(s, ast.Assign) and len(s.targets) == 1 and isinstance(s.targets[0], ast.Name)):
                     raise Untranslatable("only plain assignments allowed under a data-dependent if", s)
@@ -291,7 +297,7 @@ class Exec:
                 return ("modfunc", e.id)
             if self.tr.class_node(self.module, e.id) is not None:
                 return ("class", e.id)
-            if e.id in ("len", "float", "any", "super", "int"):
+            if e.id in ("len", "float", "any", "super", "int", "isinstance"):
                 return ("builtin", e.id)
             if e.id in ("math", "np", "numpy"):
                 return ModV(e.id)
@@ -318,6 +324,16 @@ class Exec:
             vals = [self.expr(v) for v in e.values]
             if all(isinstance(v, bool) for v in vals):
                 return all(vals) if isinstance(e.op, ast.And) else any(vals)
+            statics = [v for v in vals if isinstance(v, bool)]
+            dyn = [v for v in vals if not isinstance(v, bool)]
+            if isinstance(e.op, ast.And):
+                if not all(statics):
+                    return False
+            else:
+                if any(statics):
+                    return True
+            if len(dyn) == 1:
+                return dyn[0]
             raise Untranslatable("boolean operator on data", e)
         if isinstance(e, ast.IfExp):
             c = self.expr(e.test)
@@ -458,6 +474,16 @@ class Exec:
                     return self.expr(args[0])
                 if f[1] == "super":
                     return ("super",)
+                if f[1] == "isinstance":
+                    v = self.expr(args[0])
+                    if isinstance(v, (NoneV, Opaque, ModV)) and ast.unparse(args[1]) == "str":
+                        return isinstance(v, Opaque) and v.what.startswith("str:")
+                    raise Untranslatable("isinstance", e)
+                if f[1] == "any":
+                    v = self.expr(args[0])
+                    if isinstance(v, N) and v.shape in ("BV", "B"):
+                        return N("anyb", (v,), "B") if v.shape == "BV" else v
+                    raise Untranslatable("any() of non-boolean", e)
                 raise Untranslatable("builtin " + f[1], e)
             if kind == "numfunc":
                 return self.numfunc(f[1], e)
@@ -569,6 +595,8 @@ class Exec:
             return Opaque("device")
         if name == "array_namespace":
             return ModV("xp")
+        if name == "is_torch_namespace":
+            return False          # the numpy/jax path is the one modelled (torch only differs in default dtype)
         if name in self.tr.gen_funcs:      # reference the separately generated definition
             argv = [self.num_of(self.expr(a), e) for a in e.args]
             kw = self.kw(e)
@@ -618,6 +646,7 @@ class Exec:
         sub.events = self.events
         sub.guards = self.guards
         sub.assumed = self.assumed
+        sub.names = self.names
         sub.flags = {k: v for k, v in self.flags.items() if k != "ignore_return"}
         sub.current_cls = mcls
         sub.run(fn.body)
@@ -644,6 +673,7 @@ class Exec:
             if len(given) == 3:
                 sub = Exec(self.tr, "samples", "Samples", "compute_weights", self.env_globals(), self.overrides, obj)
                 sub.lets, sub.events, sub.guards, sub.assumed = self.lets, self.events, self.guards, self.assumed
+                sub.names = self.names
                 sub.current_cls = "Samples"
                 m = self.tr.find_method("samples", "Samples", "compute_weights")
                 sub.run(m[1].body)
@@ -913,6 +943,30 @@ class Translator:
         ex = Exec(self, module, cls, fname, env, spec.get("overrides"), self_obj)
         ex.current_cls = m[0] if cls else None
         ex.flags = dict(spec.get("flags", {}))
+        for (iname, _shape) in spec.get("inputs", []):
+            ex.names[iname] = 1          # a let may never take the name of an input (SSA)
+        for (mname, mparams, movr) in spec.get("pre_methods", []):
+            pm = self.find_method(module, cls, mname)
+            if pm is None:
+                raise Untranslatable(f"pre-method {mname} not found")
+            ov = dict(spec.get("overrides") or {})
+            ov.update(movr or {})
+            sub = Exec(self, module, pm[0], mname, env, ov, self_obj)
+            sub.current_cls = pm[0]
+            sub.lets = ex.lets
+            sub.guards = ex.guards
+            sub.names = ex.names
+            pfn = pm[1]
+            pparams = [a.arg for a in pfn.args.args][1:]
+            pdef = dict(zip(pparams[len(pparams) - len(pfn.args.defaults):], pfn.args.defaults))
+            for p_ in pparams:
+                if p_ in mparams:
+                    sub.env[p_] = mparams[p_]
+                elif p_ in pdef:
+                    sub.env[p_] = sub.expr(pdef[p_])
+                else:
+                    raise Untranslatable(f"{mname} argument {p_} unbound")
+            sub.run(pfn.body)
         if cls and spec.get("init"):
             # run __init__ (symbolically) first to populate derived attributes
             im = self.find_method(module, cls, "__init__")
@@ -920,6 +974,7 @@ class Translator:
             sub = Exec(self, module, im[0], "__init__", env, spec.get("overrides"), self_obj)
             sub.current_cls = im[0]
             sub.lets = ex.lets
+            sub.names = ex.names
             for p, v in spec["init"].items():
                 sub.env[p] = v
             iparams = [a.arg for a in ifn.args.args][1:]
